@@ -40,6 +40,16 @@ def subharnesses(tier):
                             'event': ev}
                     subs.append(('%s-D%d-A%d-n%d-%s-%s' % (
                         topo, D, A, count, g1.ptag(pl), g1.evtag(ev)), spec))
+                # two events before the next cycle: the server of a placed
+                # member disappears and the member (or another one) is removed
+                if placed:
+                    for who in (placed[0], A - 1):
+                        spec = {'topo': topo, 'D': D, 'servers': [{}, {}],
+                                'apps': apps, 'igroups': {'g': count},
+                                'event': ['remove_server', pl[placed[0]]],
+                                'more_events': [['remove_app', who]]}
+                        subs.append(('%s-D%d-A%d-n%d-%s-rmserver_rmapp%d' % (
+                            topo, D, A, count, g1.ptag(pl), who), spec))
                 # members live in an allocation with a utilisation cap: those
                 # beyond it are unranked (removed if placed, never placed)
                 if count == 2:
@@ -74,6 +84,8 @@ def harness(S, spec):
     W = g1.build(S, spec)
     g1.c05_oracle(W, ':pre')
     g1.apply_event(W, tuple(spec['event']))
+    for ev in spec.get('more_events', []):
+        g1.apply_event(W, tuple(ev))
     W.cell.schedule()
     g1.reach_branches(W)
     S.reach('scheduled')
